@@ -247,6 +247,10 @@ def scenario(rng, T, roots, gated, plan, tag='wt'):
             s = T[t]
             if s['kind'] == 'aggregate':
                 continue
+            if any(proj.bad.get(x) for x in closure(T, [t]) - {t}):
+                # something t depends on (declared dependency or producer, at any depth) currently fails: t waits for the repair
+                # (C07) and cannot be up to date; nothing to require of it here
+                continue
             if proj.bad.get(t):
                 # the current input makes the script fail: the failure must have been reported by a run after the change
                 if s['kind'] == 'build' and last_end.get(t) != '1':
